@@ -150,6 +150,15 @@ def tie(ctx):
             # legitimate on programs the type checker rejects: the resolver lets an annotation name a value
             # (tests/hm_typing/faulty_namespace_access_blob.sy: `B :: 1 ... b: ns.B = 0`); listed, not a mismatch
             dist["C08 ann_deps_ok false on: " + n] += 1
+    # ... and the syntactic condition ann_types_only that implies it (C08_resolver_order_backend_types needs it of the
+    # annotated side only); an implication failure (types-only but not deps-ok) would contradict the theorem: mismatch
+    anntypes = vlib.model(exe, ["anntypes"], inp)
+    for n, a, t in zip(names, vlib.model(exe, ["anndeps"], inp), anntypes):
+        dist["C08 ann_types_only on the real resolver's output: " + t.split(" ")[-1]] += 1
+        if t != "ANNTYPES t":
+            dist["C08 ann_types_only false on: " + n] += 1
+        if t == "ANNTYPES t" and a != "ANNDEPS t":
+            mism.append({"case": n, "model": t + " but " + a, "real": "C08_ann_types_only_deps_ok"})
     nontrivial = set()
     for n, g, w, i in zip(names, got, want, inp):
         if g == w:
